@@ -241,6 +241,12 @@ impl<'a, T> Controlled<'a, T> {
 
 pub const POLL_LIMIT: u64 = 20_000;
 
+/// A scripted step that legitimately polls its hook very often (a warm-up of thousands of asks) reports its
+/// progress here so that the watchdog below does not take it for a spin.
+pub fn scripted_progress() {
+    with(|c| c.polls = 0);
+}
+
 /// Hook code polled this often within one execution means the runtime never went idle: some loop of the code
 /// under test spins. Recorded once in the trace; the spinning task is then ended by a panic so that the
 /// execution can finish and be reported with its replay.
